@@ -1,5 +1,6 @@
-(* Switches that select between the code as it is in /repo today (all false) and the planned
-   repairs (true).  The models consult a [config] value; [current_cfg] is what the correspondence
+(* Switches that select between the code as it was in /repo originally (false) and the repairs
+   (true).  last_n0_guard and one_closes are committed in /repo (so they are true here);
+   xslices.Runs is not repaired yet.  The models consult a [config] value; [current_cfg] is what the correspondence
    check runs, [fixed_cfg] is what the main theorems are proved for.  Flipping a definition below
    to [true] after the Go fix makes [current_cfg] coincide with the fixed behaviour for that item.
 
@@ -8,11 +9,13 @@
    one_closes         : stream.One has `defer s.Close()` (today: never closes).
    xslices_runs_fixed : xslices.Runs appends s[start:i] in the else-branch and appends s[start:]
                         at the end iff len(s) > 0 (today: a leading run of length one is lost). *)
-Definition last_n0_guard : bool := false.
-Definition one_closes : bool := false.
+Definition last_n0_guard : bool := true.
+Definition one_closes : bool := true.
 Definition xslices_runs_fixed : bool := false.
 
 Record config := mkConfig { cfg_last_guard : bool; cfg_one_closes : bool; cfg_xs_runs_fixed : bool }.
 
 Definition current_cfg : config := mkConfig last_n0_guard one_closes xslices_runs_fixed.
 Definition fixed_cfg : config := mkConfig true true true.
+(* the tree as it was before any repair: the `_refuted` witnesses are stated for it *)
+Definition original_cfg : config := mkConfig false false false.
